@@ -108,6 +108,120 @@ CodeValidate(p, QuorumLowerBound) ==
     /\ \A i \in 1..n : \A j \in (i+1)..n : ~(cs[i].sn = cs[j].sn /\ IssDN(cs[i]) = IssDN(cs[j]))
     /\ \A cl \in TRCClasses : \A i, j \in Idx(cs, cl) : i # j => SubjDN(cs[i]) # SubjDN(cs[j])
 
+-----------------------------------------------------------------------------
+(* C32: TRC updates.  A case is [hp, pred, next, sis]:
+     hp    TRUE iff a predecessor is given (pred is then a trusted, valid payload)
+     pred, next   payloads with certificates expanded (records)
+     sis   the signer infos attached to next: a sequence of [c, kind] where c is a certificate
+           record and kind = "good" for a signer info whose identifier names c and whose signature was
+           made with c's key over next's payload; every other kind is some forged / broken signer info.
+   Written from the statement; the weakest reading is used wherever the statement leaves room.  *)
+CertSet(p, cls) == {p.certs[i] : i \in Idx(p.certs, cls)}
+Subjects(p, cls) == {SubjDN(c) : c \in CertSet(p, cls)}
+Signed(sis, c) == \E i \in 1..Len(sis) : sis[i].c = c /\ sis[i].kind = "good"
+VoteCert(pred, v) == pred.certs[v + 1]
+InRange(pred, v) == v >= 0 /\ v < Len(pred.certs)
+
+\* distinct certificates of class cls of the predecessor that are listed in votes and signed
+Voters(pred, next, sis, cls) ==
+    {c \in CertSet(pred, cls) : /\ \E k \in 1..Len(next.votes) :
+                                        InRange(pred, next.votes[k]) /\ VoteCert(pred, next.votes[k]) = c
+                                 /\ Signed(sis, c)}
+
+\* voting certificates of next that the predecessor does not contain in the same class
+NewVoting(pred, next) == (CertSet(next, "sens") \ CertSet(pred, "sens")) \cup
+                         (CertSet(next, "reg") \ CertSet(pred, "reg"))
+
+\* certificates of class cls of pred whose subject carries a different certificate in next
+Replaced(pred, next, cls) ==
+    {c \in CertSet(pred, cls) : c \notin CertSet(next, cls) /\ SubjDN(c) \in Subjects(next, cls)}
+
+SensitiveOK(pred, next, sis) == Cardinality(Voters(pred, next, sis, "sens")) >= pred.quorum
+
+RegularOK(pred, next, sis) ==
+    /\ Cardinality(Voters(pred, next, sis, "reg")) >= pred.quorum
+    /\ next.quorum = pred.quorum /\ next.core = pred.core /\ next.auth = pred.auth
+    /\ CertSet(next, "sens") = CertSet(pred, "sens")
+    /\ Subjects(next, "root") = Subjects(pred, "root")
+    /\ Subjects(next, "reg") = Subjects(pred, "reg")
+    /\ Replaced(pred, next, "reg") \subseteq Voters(pred, next, sis, "reg")
+    /\ \A c \in Replaced(pred, next, "root") : Signed(sis, c)
+
+UpdateRule(pred, next, sis) ==
+    IF next.isd # pred.isd THEN "other-isd"
+    ELSE IF next.base # pred.base THEN "other-base"
+    ELSE IF next.serial # pred.serial + 1 THEN "serial-not-next"
+    ELSE IF next.reset # pred.reset THEN "trust-reset-flag-changed"
+    ELSE IF ~PayloadValid(next) THEN "payload:" \o Rule(next)
+    ELSE IF \E c \in NewVoting(pred, next) : ~Signed(sis, c) THEN "new-voter-unsigned"
+    ELSE IF ~SensitiveOK(pred, next, sis) /\ ~RegularOK(pred, next, sis) THEN
+        IF Cardinality(Voters(pred, next, sis, "reg")) >= pred.quorum
+          THEN "regular-votes-on-sensitive-change"
+          ELSE "no-quorum-of-signed-voters"
+    ELSE ""
+
+BaseRule(next, sis) ==
+    IF next.base # next.serial THEN "not-a-base-trc"
+    ELSE IF ~PayloadValid(next) THEN "payload:" \o Rule(next)
+    ELSE IF \E c \in CertSet(next, "sens") \cup CertSet(next, "reg") : ~Signed(sis, c) THEN "base-voter-unsigned"
+    ELSE ""
+
+(* acceptance of next: as successor of pred (hp), or as a base TRC without predecessor *)
+AcceptRule(hp, pred, next, sis) ==
+    IF hp THEN (IF next.base = next.serial THEN "base-trc-as-update" ELSE UpdateRule(pred, next, sis))
+    ELSE BaseRule(next, sis)
+AcceptOK(hp, pred, next, sis) == AcceptRule(hp, pred, next, sis) = ""
+
+(* ---- shape of SignedTRC.Verify / TRC.ValidateUpdate / verifyAll in the code (drift / in-model) ---- *)
+SidMatch(a, b) == IssDN(a) = IssDN(b) /\ a.sn = b.sn       \* SignerInfo.FindCertificate: issuer + serial
+\* verifyAll(certs): every signer info that names a certificate of the list must verify with that
+\* certificate's key; afterwards every element of the list must have been seen (a list with
+\* duplicates can never be seen completely)
+CodeVerifyAllSet(S, sis) ==
+    /\ \A i \in 1..Len(sis) : \A c \in S : SidMatch(sis[i].c, c) => sis[i].kind = "good" /\ sis[i].c = c
+    /\ \A c \in S : \E i \in 1..Len(sis) : SidMatch(sis[i].c, c)
+CodeVerifyAll(list, sis) == NoDup(list) /\ CodeVerifyAllSet(Range(list), sis)
+FindBySubject(p, cls, c) == {d \in CertSet(p, cls) : SubjDN(d) = SubjDN(c)}
+
+CodeNewVoters(pred, next) ==
+    {c \in CertSet(next, "sens") : c \notin CertSet(pred, "sens")} \cup
+    {c \in CertSet(next, "reg") : c \notin CertSet(pred, "reg")}
+
+CodeAccept(hp, pred, next, sis, Q) ==
+    IF next.base = next.serial THEN
+        /\ ~hp
+        /\ CodeValidate(next, Q)
+        /\ CodeVerifyAllSet(CertSet(next, "sens") \cup CertSet(next, "reg"), sis)
+    ELSE
+        /\ CodeValidate(next, Q)
+        /\ hp
+        /\ pred.isd = next.isd /\ pred.base = next.base /\ pred.serial + 1 = next.serial
+        /\ pred.reset = next.reset
+        /\ Len(next.votes) >= pred.quorum
+        /\ LET votesIn(cls) == \A k \in 1..Len(next.votes) :
+                                  InRange(pred, next.votes[k]) /\ VoteCert(pred, next.votes[k]).cls = cls
+               voteList == [k \in 1..Len(next.votes) |-> VoteCert(pred, next.votes[k])]
+               regular == InRange(pred, next.votes[1]) /\ VoteCert(pred, next.votes[1]).cls = "reg"
+               changed(cls) == {c \in CertSet(next, cls) : c \notin CertSet(pred, cls)}
+           IN IF ~regular THEN
+                  /\ votesIn("sens")
+                  /\ CodeVerifyAllSet(CodeNewVoters(pred, next), sis)
+                  /\ CodeVerifyAll(voteList, sis)
+              ELSE
+                  /\ pred.quorum = next.quorum /\ pred.core = next.core /\ pred.auth = next.auth
+                  /\ Cardinality(CertSet(pred, "sens")) = Cardinality(CertSet(next, "sens"))
+                  /\ changed("sens") = {}
+                  /\ Cardinality(CertSet(pred, "root")) = Cardinality(CertSet(next, "root"))
+                  /\ \A c \in CertSet(next, "root") : FindBySubject(pred, "root", c) # {}
+                  /\ Cardinality(CertSet(pred, "reg")) = Cardinality(CertSet(next, "reg"))
+                  /\ \A c \in CertSet(next, "reg") : FindBySubject(pred, "reg", c) # {}
+                  /\ votesIn("reg")
+                  /\ \A c \in changed("reg") : \A d \in FindBySubject(pred, "reg", c) :
+                          \E k \in 1..Len(next.votes) : voteList[k] = d
+                  /\ CodeVerifyAllSet(CodeNewVoters(pred, next), sis)
+                  /\ CodeVerifyAllSet(UNION {FindBySubject(pred, "root", c) : c \in changed("root")}, sis)
+                  /\ CodeVerifyAll(voteList, sis)
+
 (* Field-wise comparison of two payloads for the round trip: name of the first differing field. *)
 DiffField(p, q) ==
     IF p.ver # q.ver THEN "version"
